@@ -13,20 +13,25 @@ P = "OdxVerif.OdxLink."
 THEOREMS = [P + t for t in [
     "C10_resolve", "C10_resolve_untyped", "C10_dangling_raises", "C10_innermost_wins", "C10_outer_fallback",
     "C10_update_no_overwrite", "C10_update_spec", "C10_build", "C10_import_view", "C10_import_local",
-    "C10_link_phase", "C10_refresh_wf", "C10_snref_unique", "C10_retarget",
+    "C10_link_phase", "C10_refresh_wf", "C10_snref_unique", "C10_retarget", "C10_retarget_reach", "C10_retarget_paths",
     "C10_import_local_pinned_counterexample"]]
 RULE = ("databases = 2-3 DIAG-LAYER-CONTAINERs x 1-3 layers (ECU-SHARED-DATA/FUNCTIONAL-GROUP/BASE-VARIANT/ECU-VARIANT, "
-        "single-parent chains, IMPORT-REFS), local ids and short names drawn from pools of 5-8 so that they collide "
+        "0-3 PARENT-REFs per layer in any order => hierarchies that branch and join; inheritance conflicts steered away from; "
+        "IMPORT-REFS), local ids and short names drawn from pools of 5-8 so that they collide "
         "across layers and containers; references fragment-relative / DOCREF LAYER / DOCREF CONTAINER, ID-REF or SNREF "
         "variant per kind; fault stream: unknown id, unknown DOCREF, id of a not-imported ECU-SHARED-DATA, wrong type, "
         "missing/ambiguous short name, IMPORT-REF to a non-ESD layer. unit level: random new/update/copy/resolve "
         "histories on OdxLinkDatabase objects, random resolve_snref calls. distinct = distinct canonical description; "
-        "non-trivial = database with a DOCREF or an import or an id collision that loads, or a history with a copy")
+        "non-trivial = database with a DOCREF or an import or a layer with several parents that loads, or a history with a copy. "
+        "enumerated: enum-retarget-hierarchies = every inheritance graph over {FG,FG,BV,EV} / {ESD,FG,BV,EV} (thorough: "
+        "{ESD,FG,FG,BV,EV}) x every set of layers defining the referenced short name x both PARENT-REFS orders, a DOP-SNREF "
+        "in every layer that sees the name, retarget_snrefs to every layer with parents in sequence")
 TRUSTED = ["model lean/OdxVerif/Model/OdxLink.lean is hand-written; tied to odxtools/odxlink.py, DiagLayer._resolve_odxlinks, "
            "Database.refresh and retarget_snrefs by comparing dictionary dumps, bound targets and error classes",
            "the generated description (harness/odxlink_lib.py) states which object carries which id in which layer; the XML "
            "emitted from it is read by the real parser (from_et glue is exercised differentially only)",
-           "value inheritance is modelled for single-parent chains without NOT-INHERITED lists only (full algorithm: C09)"]
+           "value inheritance is modelled for any number of parents per layer, but without NOT-INHERITED lists and without "
+           "inheritance conflicts (full algorithm: C09); the generator keeps the hierarchies conflict-free"]
 ASSUMPTIONS = ["objects stored in an OdxLinkDatabase are never None",
                "database level is checked in strict mode; non-strict mode is covered at unit level (resolve / resolve_snref)",
                "Python warnings (OdxWarning for an unknown document fragment) are not turned into errors",
@@ -322,7 +327,36 @@ def witness(g, extra=None):
     w = {"kind": "database", "xml": L.to_xml(g), "features": sorted(g.features), "expect_load": getattr(g, "expect_load", None)}
     if extra:
         w.update(extra)
+        if "history" in extra:    # a retarget witness carries the description: the replay evaluates the same oracle
+            w["description"] = json.loads(json.dumps({"containers": g.containers}))
     return w
+
+
+def replay_retarget(w):
+    """load the witness database, run the recorded retarget history, evaluate the direct oracle after the last call"""
+    from odxtools.utils import retarget_snrefs
+    g = L.Gen(random.Random(0), PROFILES["valid"])
+    g.containers = w["description"]["containers"]
+    g.layers = [X for c in g.containers for X in c["layers"]]
+    db, err = L.load(L.to_xml(g))
+    if err is not None:
+        return False
+    ex = L.Extract(g, db)
+    T = None
+    try:
+        with warnings.catch_warnings():
+            warnings.simplefilter("ignore")
+            for name in w["history"]:
+                T = L.layer_named(g, name)
+                retarget_snrefs(db, ex.py[T["uid"]])
+    except Exception:  # noqa
+        return False
+    bound = ex.bound()
+    for X in L.ancestors(g, T):
+        for k, v in snref_want(g, T, X).items():
+            if v != str(bound[k]):
+                return False
+    return True
 
 
 def feat_kind(g):
@@ -330,7 +364,27 @@ def feat_kind(g):
     return fs[:3]
 
 
-def check_database(ctx, g, fam, drv):
+def db_lines(g):
+    return [L.s_db(g, "refresh"), L.s_db(g, "links"), L.s_db(g, "spec")]
+
+
+def split_top(s):
+    """'(head (a …) (b …) …)' -> ['(a …)', '(b …)', …]"""
+    out, depth, cur = [], 0, ""
+    for ch in s[s.find(" ") + 1:-1] if " " in s else "":
+        if ch == "(":
+            depth += 1
+        if depth:
+            cur += ch
+        if ch == ")":
+            depth -= 1
+            if depth == 0:
+                out.append(cur)
+                cur = ""
+    return out
+
+
+def check_database(ctx, g, fam, drv, reps=None):
     """one generated database through the real loader, the model, the spec and the model-free oracles"""
     docs = L.to_xml(g)
     db, err = L.load(docs)
@@ -342,7 +396,7 @@ def check_database(ctx, g, fam, drv):
         except Exception as e:  # noqa
             db, err = None, "foreign:extract-" + type(e).__name__
     has_docref = any(f in g.features for f in ("form:layer", "form:container"))
-    ctx.case(("db", tuple(docs)), nontrivial=(err is None and (has_docref or "imports" in g.features)))
+    ctx.case(("db", tuple(docs)), nontrivial=(err is None and (has_docref or "imports" in g.features or "multi-parent" in g.features)))
     ctx.histo("load_outcome", err or "ok")
     for f in g.features:
         if f.startswith("form:") or f.startswith("fault:") or f in ("imports", "dup-name", "import-non-esd"):
@@ -354,7 +408,8 @@ def check_database(ctx, g, fam, drv):
             carriers[lid] = carriers.get(lid, 0) + 1
     n_coll = sum(1 for X in g.layers for r in L.all_refs(X)[0] if carriers.get(r["rid"], 0) > 1)
     ctx.histo("link_refs_whose_id_is_carried_by_several_layers", min(n_coll // 5 * 5, 30))
-    reps = drv.query([L.s_db(g, "refresh"), L.s_db(g, "links"), L.s_db(g, "spec")])
+    if reps is None:
+        reps = drv.query(db_lines(g))
     m_refresh, m_links, m_spec = reps
     if any(r.startswith("(bad") for r in reps):
         raise RuntimeError("driver rejected a request: " + str(reps)[:300])
@@ -478,54 +533,101 @@ def check_imports_metamorphic(ctx, g, db, err):
                 return
 
 
-def check_retarget(ctx, g, db, err, drv, m_links):
+def snref_want(g, T, X):
+    """model-free expectation for the short-name references owned by layer X when resolved in the view of layer T:
+    {key: uid or None (= not uniquely resolvable)}"""
+    want = {}
+    for r in L.all_refs(X)[1]:
+        cands = [o for p in r["pools"] for o in L.visible_py(g, T, p)] if r["pools"] else r["items"]
+        hit = [o for o in cands if o["sn"] == r["name"]]
+        want[r["key"]] = str(hit[0]["uid"]) if len(hit) == 1 and (r["exp"] is None or r["exp"] in L.CLS[hit[0]["kind"]]) else None
+    return want
+
+
+def retarget_line(g, schedule):
+    return L.s_db(g, "retargets", head=" (" + " ".join(str(T["uid"]) for T in schedule) + ")")
+
+
+def check_retarget(ctx, g, db, err, drv, m_links, schedule=None, fam="retarget", rep_all=None):
+    """call history: `retarget_snrefs(db, T)` for a sequence of targets T1, T2, … (layers with parents; the same layer
+    may come twice) on one loaded database; after *each* call every short-name reference owned by T or by any layer
+    reachable from T over PARENT-REFs (through any parent of a layer with several) must be bound in T's view"""
     if err is not None or not m_links.startswith("(ok"):
         return
     from odxtools.utils import retarget_snrefs
-    targets = [X for X in g.layers if X.get("parent_layer")]
+    from odxtools.exceptions import OdxError
+    targets = [X for X in g.layers if X["parent_layers"]]
     if not targets:
         return
     ex = L.Extract(g, db)
-    res = field(m_links, "links") or ""
-    T = ctx.rng.choice(targets)
-    try:
-        with warnings.catch_warnings():
-            warnings.simplefilter("ignore")
-            retarget_snrefs(db, ex.py[T["uid"]])
-        out = None
-    except Exception as e:  # noqa
-        from odxtools.exceptions import OdxError
-        out = "(err odx)" if isinstance(e, OdxError) else ("(err key)" if isinstance(e, KeyError) else f"(foreign:{type(e).__name__})")
-    rep = drv.query([L.s_db(g, "retarget", head=f" {T['uid']} ({res})")])[0]
-    ctx.traces += 1
-    ctx.count("retarget_cases")
-    # chain of T
-    chain, X = [], T
-    while X is not None:
-        chain.append(X)
-        X = next((y for y in g.layers if y["name"] == X.get("parent_layer")), None) if X["kind"] != "ECU-SHARED-DATA" else None
-    if out is None:
-        bound = ex.bound()
-        keys = []
+    if schedule is None:   # mostly layers with parents; now and then any layer (ECU-SHARED-DATA, a root of the hierarchy)
+        schedule = [ctx.rng.choice(targets if ctx.rng.random() < 0.85 else g.layers) for _ in range(ctx.rng.choice([1, 1, 2, 3]))]
+    if rep_all is None:
+        rep_all = drv.query([retarget_line(g, schedule)])[0]
+    model = split_top(rep_all)
+    if not rep_all.startswith("(rts") or len(model) != len(schedule):
+        raise RuntimeError("driver rejected a request: " + rep_all[:300])
+    for step, T in enumerate(schedule):
+        try:
+            with warnings.catch_warnings():
+                warnings.simplefilter("ignore")
+                retarget_snrefs(db, ex.py[T["uid"]])
+            out = None
+        except Exception as e:  # noqa
+            out = "(err odx)" if isinstance(e, OdxError) else ("(err key)" if isinstance(e, KeyError) else f"(foreign:{type(e).__name__})")
+        rep = model[step]
+        ctx.traces += 1
+        ctx.count("retarget_cases")
+        reach = L.ancestors(g, T)
+        branching = any(len(X["parent_layers"]) > 1 for X in reach)
+        ctx.histo("retarget_hierarchy", ("branching" if branching else "chain") + f"/{min(len(reach), 5)}-layers")
+        ctx.histo("retarget_step_in_history", step)
         want = {}
-        for X in chain:
-            for r in L.all_refs(X)[1]:
-                keys.append(r["key"])
-                cands = [o for p in r["pools"] for o in L.visible_py(g, T, p)] if r["pools"] else r["items"]
-                hit = [o for o in cands if o["sn"] == r["name"]]
-                want[r["key"]] = str(hit[0]["uid"]) if len(hit) == 1 and (r["exp"] is None or r["exp"] in L.CLS[hit[0]["kind"]]) else None
-        now = {k: str(bound[k]) for k in keys}
-        for k in keys:   # direct oracle: rebinding to T's view
-            if want[k] != now[k]:
-                ctx.violate("retarget", ["database", "retarget-binds-other-object"], f"{now[k]}",
-                            witness(g, {"target": T["name"], "reference": k}),
-                            f"after retarget_snrefs to {T['name']}, {k} is bound to {now[k]}, expected {want[k]} (T's view)")
-                break
-        mp = parse_pairs(rep[3:-1]) if rep.startswith("(ok") else None
-        if mp != now:
-            ctx.disagree("retarget", {"xml": L.to_xml(g), "target": T["name"]}, rep[:600], json.dumps(now)[:600])
-    elif rep != out:
-        ctx.disagree("retarget", {"xml": L.to_xml(g), "target": T["name"]}, rep[:300], out)
+        owner = {}
+        for X in reach:
+            w = snref_want(g, T, X)
+            want.update(w)
+            for k in w:
+                owner[k] = X
+        hist = [t["name"] for t in schedule[:step + 1]]
+        if out is None:
+            bound = ex.bound()
+            now = {k: str(bound[k]) for k in want}
+            n_moved = 0
+            for k in want:   # direct oracle: rebinding to T's view
+                X = owner[k]
+                if X is not T and snref_want(g, X, X).get(k) != want[k]:
+                    n_moved += 1        # the owner's own view binds this reference to another object than T's view
+                if want[k] != now[k]:
+                    via = "first-parent-path" if on_first_parent_path(g, T, X) else "other-parent-path"
+                    ctx.violate("retarget", ["database", "retarget-binds-other-object", via], "other-object",
+                                witness(g, {"target": T["name"], "reference": k, "history": hist, "owner": X["name"], "via": via}),
+                                f"after retarget_snrefs to {' then '.join(hist)}, {k} (owned by {X['name']}, reached over a {via}) "
+                                f"is bound to {now[k]}, expected {want[k]} ({T['name']}'s view)")
+                    break
+            ctx.histo("retarget_refs_rebound_to_other_object", min(n_moved, 3))
+            mp = parse_pairs(rep[3:-1]) if rep.startswith("(ok") else None
+            if mp != now:
+                ctx.disagree(fam, {"xml": L.to_xml(g), "target": T["name"], "history": hist}, rep[:600], json.dumps(now)[:600])
+        else:
+            if all(v is not None for v in want.values()):
+                ctx.violate("retarget", ["database", "retarget-raises-although-resolvable", out], out,
+                            witness(g, {"target": T["name"], "history": hist}),
+                            f"retarget_snrefs to {' then '.join(hist)} raises {out} although every short-name reference reachable "
+                            f"from {T['name']} is uniquely resolvable in its view")
+            if rep != out:
+                ctx.disagree(fam, {"xml": L.to_xml(g), "target": T["name"], "history": hist}, rep[:300], out)
+            return    # the bindings after a failed call are unspecified
+
+
+def on_first_parent_path(g, T, X):
+    """is X reached from T by following only the first PARENT-REF of every layer?"""
+    Y = T
+    while Y is not None:
+        if Y is X:
+            return True
+        Y = L.layer_named(g, Y["parent_layers"][0]) if Y["kind"] != "ECU-SHARED-DATA" and Y["parent_layers"] else None
+    return False
 
 
 # ---------------------------------------------------------------- corpus (defects found on the pinned commit)
@@ -549,9 +651,7 @@ def corpus_database():
     g = L.Gen(rng, PROFILES["valid"])
 
     def layer(name, kind, cont):
-        X = {"name": name, "kind": kind, "cont": cont, "uid": g.new_uid(), "imports": [], "parent": None, "dops": [], "structs": [],
-             "eopfs": [], "muxs": [], "tables": [], "requests": [], "pos": [], "neg": [], "services": [], "dcrefs": []}
-        return X
+        return L.new_layer(g, name, kind, cont)
     A, B, S = layer("A", "BASE-VARIANT", "C1"), layer("B", "BASE-VARIANT", "C1"), layer("S", "ECU-SHARED-DATA", "C2")
     g.containers = [{"name": "C1", "uid": g.new_uid(), "layers": [A, B]}, {"name": "C2", "uid": g.new_uid(), "layers": [S]}]
     g.layers = [A, B, S]
@@ -598,6 +698,12 @@ def run(ctx):
         ctx.obligation("class-table-matches-live-classes", ok)
     except Exception as e:  # noqa
         ctx.obligation("class-table-matches-live-classes", False, repr(e))
+    try:   # inheritance priorities used by the independent reading of value inheritance vs the live enum
+        from odxtools.diaglayers.diaglayertype import DiagLayerType
+        live = {t.value: t.inheritance_priority for t in DiagLayerType}
+        ctx.obligation("prio-table-matches-live-enum", live == L.PRIO, "" if live == L.PRIO else repr(live))
+    except Exception as e:  # noqa
+        ctx.obligation("prio-table-matches-live-enum", False, repr(e))
     pending = []
     # (a) corpus
     for ops in corpus_histories():
@@ -618,7 +724,9 @@ def run(ctx):
             ctx.disagree(fam, {"line": line[:2000]}, rep[:1500], got[:1500])
     if pending:
         ctx.sample({"request": lines[2][:300], "model": reps[2][:300], "impl": pending[2][2][:300]})
-    # (c) databases
+    # (c) enumerated hierarchies that branch and join (retarget histories over every target)
+    run_enum_hierarchies(ctx, drv, ["FGBE", "SFBE", "SFGBE"] if big else ["FGBE", "SFBE"])
+    # (d) databases
     n_valid, n_faulty = (5000, 5000) if big else (550, 550)
     for fam, n in (("valid", n_valid), ("faulty", n_faulty)):
         for i in range(n):
@@ -631,6 +739,36 @@ def run(ctx):
                 check_imports_metamorphic(ctx, g, db, err)
                 check_retarget(ctx, g, db, err, drv, ml)
             except Exception as e:  # noqa  (implementation changed under the extraction code: data, not a crash)
+                ctx.disagree("extract", {"xml": L.to_xml(g)}, "n/a", "foreign:" + type(e).__name__)
+
+
+def enum_schedule(g, tag):
+    """retarget(T) for *every* layer T that has parents (most derived first resp. last), and the first one again"""
+    targets = [X for X in g.layers if X["parent_layers"]]
+    sched = list(reversed(targets)) if not tag[3] else list(targets)
+    return sched + [sched[0]]
+
+
+def run_enum_hierarchies(ctx, drv, scopes):
+    """enumerated small scope `enum-retarget-hierarchies`: every database through the full database check, then the
+    retarget call history of `enum_schedule`; the model is asked once per scope (4 request lines per database)"""
+    fam = "enum-retarget-hierarchies"
+    for scope in scopes:
+        cases = []
+        for tag, g in L.enum_hierarchies(scope):
+            if g is None:
+                ctx.count(f"enum_{scope}_skipped_inheritance_conflict")
+            else:
+                cases.append((tag, g, enum_schedule(g, tag)))
+        reps = drv.query([ln for tag, g, sched in cases for ln in db_lines(g) + [retarget_line(g, sched)]])
+        for n, (tag, g, sched) in enumerate(cases):
+            ctx.count(f"enum_{scope}_databases")
+            db, err, (mr, ml) = check_database(ctx, g, fam, drv, reps=reps[4 * n:4 * n + 3])
+            if err is not None:      # conflict-free and every reference resolvable by construction: reported by check_database
+                continue
+            try:
+                check_retarget(ctx, g, db, err, drv, ml, schedule=sched, fam=fam, rep_all=reps[4 * n + 3])
+            except Exception as e:  # noqa
                 ctx.disagree("extract", {"xml": L.to_xml(g)}, "n/a", "foreign:" + type(e).__name__)
 
 
@@ -647,6 +785,8 @@ def replay(ctx, data):
         got = outcome(lambda: resolve_snref(w["name"], items, kl[exp]) if exp else resolve_snref(w["name"], items))
         want = f"(ok {cands[0].uid})" if len(cands) == 1 and (exp is None or isinstance(cands[0], kl[exp])) else "(err odx)"
         return got == want
+    if w.get("kind") == "database" and "history" in w:
+        return replay_retarget(w)
     if w.get("kind") == "database":
         db, err = L.load(w["xml"])
         # partial replay (the description is not part of the witness): the load outcome the specification demands,
